@@ -38,7 +38,8 @@ ANCHORS = [
     "acnportal.acnsim.interface:Interface.allowable_pilot_signals",
 ]
 REQUIRED = ["set_pilot_judged", "accepted", "rejected", "regime:EVSE", "regime:DeadbandEVSE", "regime:FiniteRatesEVSE",
-            "rejected_with_ev_state_checked", "advertised_values_applied", "advertised_after_json", "plugin_occupied_refused"]
+            "rejected_with_ev_state_checked", "pilot_equals_current", "pilot_exact_zero", "pilot_repeated", "replug_between_pilots",
+            "advertised_values_applied", "advertised_after_json", "plugin_occupied_refused"]
 BUDGET_S = {"quick": 200, "thorough": 2400}
 OFFS = [0, 1e-6, 5e-4, 9.99e-4, 1.001e-3, 2e-3, 0.5, 3]
 
@@ -188,6 +189,7 @@ def _run_direct(case, obs):
     bs = _boundaries(e)
     acc0, rej0 = obs.events["accepted"], obs.events["rejected"]
     near = 0
+    last = None
     CUR["deep"] = case["with_ev"]
     for _ in range(case["n"]):
         b = rng.choice(bs)
@@ -195,6 +197,24 @@ def _run_direct(case, obs):
         p = b + rng.choice([-1, 1]) * off
         if rng.random() < 0.1:
             p = rng.uniform(-5, 90)
+        # history-sensitive pilots: acceptance must be a function of (EVSE, pilot) alone
+        h = rng.random()
+        if h < 0.10:
+            p = evse.current_pilot  # exactly the value the station already holds (0 on a fresh / just vacated station)
+            obs.ev("pilot_equals_current")
+        elif h < 0.16:
+            p = 0
+            obs.ev("pilot_exact_zero")
+        elif h < 0.22 and last is not None:
+            p = last  # the previous attempt again, accepted or not
+            obs.ev("pilot_repeated")
+        elif h < 0.27 and car is not None:
+            # vacate and re-occupy the station between pilots (the stored pilot is reset on unplug)
+            evse.unplug()
+            if rng.random() < 0.7:
+                evse.plugin(car)
+            obs.ev("replug_between_pilots")
+        last = p
         if rng.random() < 0.15:
             p = np.float64(p)
         if abs(off) <= 2e-3:
